@@ -11,17 +11,52 @@ reaches a join along some path is among the arguments of the phi.  `checks/c14.p
 on every real SSA dump, together with the static clauses (unique definitions, phis at the head,
 signals/components unversioned, every version declared, non-phi statements unchanged).
 
-Not proved: that the SSA *construction* passes the check for every input CFG
-(`C14_construction_statement`); that is decided per instance.
+The construction itself is modelled in `Model/SsaBuild.lean` — the work list of `insert_phi_statements`
+and the renaming with its scoped environment (the version map at the entry of a block is the map at the end
+of its immediate dominator), with the numbers handed out by the global counter as a *parameter* — and
+`C14_construction` proves that for every rooted CFG, every numbering and every run of the work list that
+empties it, the built SSA form passes the check, hence has the path properties.  The deep step
+(`SsaBuild.edge_no_phi`): on an edge `p → i` where `i` has no phi statement for `v`, no block on the
+dominator-tree chain from `p` up to `idom i` defines `v` — otherwise `i` would be in that block's dominance
+frontier (C15) and the placement, being closed under the frontier (`insertPhis_closed_init`), would have put a
+phi statement there.  `checks/c14.py` ties the model to the code: the model, fed with the version numbers of a
+real SSA dump, must reproduce the dump's phi statements, reads and phi arguments.
 -/
 import Circomspect.Lemmas.SsaLemmas
+import Circomspect.Lemmas.SsaBuildLemmas
 
 namespace Circomspect.C14
 open Circomspect Ssa SsaLemmas
 
-/-- the claim about the algorithm itself (statement only; decided per instance by the check) -/
-def C14_construction_statement (ssaOf : Cfg → Cfg) : Prop :=
-  ∀ (c : Cfg) (vars : List Var), 0 < c.blocks.length → ∃ ins, ssaLocalCheck (ssaOf c) vars ins = true
+/-- **the construction passes the check**: for every CFG whose graph is rooted, with `idom` its
+    immediate-dominator function (decreasing the block index, C12) and `df` its dominance frontiers (C15), every
+    run of the phi work list that empties it (`= some Pf`) and every numbering `V` of the versions, the SSA form
+    built by the renaming (`= some c'`: no read of a local without a version) passes `ssaLocalCheck` -/
+theorem C14_construction (V : SsaBuild.Versions) (c : SsaBuild.PCfg) (idom : Nat → Nat) (df : Nat → List Nat) (vars : List Var)
+    (hroot : Graph.Rooted (SsaBuild.graphP c))
+    (hidom : ∀ i, 0 < i → i < c.blocks.length → Graph.IDom (SsaBuild.graphP c) (idom i) i)
+    (hlt : ∀ i, 0 < i → i < c.blocks.length → idom i < i)
+    (hdf : ∀ x j, j ∈ df x ↔ Graph.InFrontier (SsaBuild.graphP c) x j)
+    (hvars : SsaBuild.VarsOk c vars)
+    (fuel : Nat) (Pf : SsaBuild.Phis)
+    (hP : SsaBuild.insertPhis df (SsaBuild.written c) fuel (List.range c.blocks.length) (fun _ => []) = some Pf)
+    (c' : Cfg) (hb : SsaBuild.build V c Pf idom = some c') :
+    ssaLocalCheck c' vars (SsaBuild.insOf V c Pf idom) = true := by
+  have hclosed := SsaBuild.insertPhis_closed_init c.blocks.length df (SsaBuild.written c) fuel Pf hP
+  have hpv : ∀ j v, v ∈ Pf j → v ∈ vars := by
+    apply SsaBuild.insertPhis_vars df (SsaBuild.written c) (fun v => v ∈ vars) ?_ fuel _ (fun _ => []) Pf (fun j v h => by cases h) hP
+    intro x v hv
+    unfold SsaBuild.written at hv
+    obtain ⟨s, hs, ht⟩ := List.mem_filterMap.mp hv
+    by_cases hx : x < c.blocks.length
+    · exact (hvars.stmts x hx s hs).1 v ht
+    · exfalso
+      unfold SsaBuild.PCfg.block at hs
+      rw [List.getD_eq_getElem?_getD, List.getElem?_eq_none (by omega)] at hs
+      simp at hs
+      cases hs
+  exact SsaBuild.build_check V c Pf idom vars
+    ⟨hroot, hidom, hlt, fun x hx v hv j hj => hclosed x hx v hv j ((hdf x j).mpr hj), hpv⟩ hvars c' hb
 
 /-- Soundness of the local check along all paths: the version map obtained by *executing* any
     path from the entry agrees, at the end of its last block, with the certificate. -/
@@ -47,6 +82,26 @@ theorem C14_phi_arguments (c : Cfg) (vars : List Var) (ins : Nat → VMap) (hn :
     (hpb : p ∈ (c.block b).preds) (hb : b < c.blocks.length) (v : Var) (hv : v ∈ vars) (args : List VVar)
     (hphi : phiFor (c.block b) v = some args) (k : Nat) (hk : dynOut c π v = some k) : (v, k) ∈ args :=
   phi_args_sound c vars ins (checked_of_check c vars ins hn h) p b π hπ hpb hb v hv args hphi k hk
+
+/-- ... and therefore has the path property: along every path from the entry, every read of every non-phi
+    statement of the built SSA form names the version most recently assigned on that path -/
+theorem C14_construction_paths (V : SsaBuild.Versions) (c : SsaBuild.PCfg) (idom : Nat → Nat) (df : Nat → List Nat) (vars : List Var)
+    (hroot : Graph.Rooted (SsaBuild.graphP c))
+    (hidom : ∀ i, 0 < i → i < c.blocks.length → Graph.IDom (SsaBuild.graphP c) (idom i) i)
+    (hlt : ∀ i, 0 < i → i < c.blocks.length → idom i < i)
+    (hdf : ∀ x j, j ∈ df x ↔ Graph.InFrontier (SsaBuild.graphP c) x j)
+    (hvars : SsaBuild.VarsOk c vars)
+    (fuel : Nat) (Pf : SsaBuild.Phis)
+    (hP : SsaBuild.insertPhis df (SsaBuild.written c) fuel (List.range c.blocks.length) (fun _ => []) = some Pf)
+    (c' : Cfg) (hb : SsaBuild.build V c Pf idom = some c')
+    (b : Nat) (π : List Nat) (hπ : SPath c' b π)
+    (pre : List Stmt) (s : Stmt) (post : List Stmt) (hsplit : (c'.block b).stmts = pre ++ s :: post)
+    (hphi : s.isPhi = false) (r : VVar) (hr : r ∈ s.reads) :
+    preStmt (execStmts (dynOut c' π.tail) pre) s r.1 = some r.2 := by
+  have hn : 0 < c'.blocks.length := by
+    rw [(SsaBuild.build_spec V c Pf idom c' hb).2.1]; exact hroot.pos
+  exact C14_local_implies_paths c' vars _ hn
+    (C14_construction V c idom df vars hroot hidom hlt hdf hvars fuel Pf hP c' hb) b π hπ pre s post hsplit hphi r hr
 
 /-- non-vacuity: `x = 1; while (..) { x = x + 1 }; use x` in SSA form passes the check -/
 def exCfg : Cfg :=
